@@ -23,6 +23,37 @@ type stream struct {
 	mu   sync.Mutex
 	msgs []string
 	note chan struct{}
+	// endpoint fault (webhook streams only): when armed, the endpoint answers
+	// 500 exactly once, on the first request that carries the same "time" as
+	// the message accepted just before it, i.e. on the second notification of
+	// one write and therefore in the middle of a delivery batch
+	faultArmed bool
+	faultFired bool
+	lastTime   string
+}
+
+// accept decides about one webhook request: false = answer 500 (not recorded).
+func (s *stream) accept(body, tm string) bool {
+	s.mu.Lock()
+	if s.faultArmed && tm != "" && tm == s.lastTime {
+		s.faultArmed, s.faultFired = false, true
+		s.mu.Unlock()
+		return false
+	}
+	s.lastTime = tm
+	s.msgs = append(s.msgs, body)
+	s.mu.Unlock()
+	select {
+	case s.note <- struct{}{}:
+	default:
+	}
+	return true
+}
+
+func (s *stream) fired() bool {
+	s.mu.Lock()
+	defer s.mu.Unlock()
+	return s.faultFired
 }
 
 func newStream() *stream { return &stream{note: make(chan struct{}, 1)} }
@@ -77,6 +108,7 @@ func startReceiver() (*receiver, error) {
 		body, _ := io.ReadAll(req.Body)
 		var h struct {
 			Hook string `json:"hook"`
+			Time string `json:"time"`
 		}
 		json.Unmarshal(body, &h)
 		r.mu.Lock()
@@ -85,8 +117,9 @@ func startReceiver() (*receiver, error) {
 			r.stray++
 		}
 		r.mu.Unlock()
-		if st != nil {
-			st.push(string(body))
+		if st != nil && !st.accept(string(body), h.Time) {
+			w.WriteHeader(500)
+			return
 		}
 		w.WriteHeader(200)
 	})
